@@ -26,6 +26,7 @@ from dask_expr._expr import (  # noqa: F401
     Projection,
     Unaryop,
     _DelayedExpr,
+    _reads_rows_elemwise,
     are_co_aligned,
     determine_column_projection,
     is_filter_pushdown_available,
@@ -89,6 +90,11 @@ class Merge(Expr):
         )
 
     def _filter_passthrough_available(self, parent, dependents):
+        if not _reads_rows_elemwise(parent.predicate, self, allow_reduction=False):
+            # The merge drops and duplicates rows, so a predicate that looks at
+            # more than one row at a time (cumsum, sum, ...) is different below
+            # the merge and above the other parts of the predicate
+            return False
         if is_filter_pushdown_available(self, parent, dependents):
             predicate = parent.predicate
             # This protects against recursion, no need to separate ands if the first
